@@ -35,6 +35,17 @@ pub fn check_terminating(choices: &Vec<u16>) -> Out {
     for d in -3i64..=3 {
         limits.push((n as i64 + d).max(0) as u32);
     }
+    // just below every host callback of the unlimited run (the first dozen): with such a limit the
+    // callback must not happen any more, whatever kind of row the limit falls on
+    if let Ok((_, log0)) = run_limited(&program, &g.case, u32::MAX) {
+        for ev in log0.events.iter().filter(|e| e.0 <= 1).take(12) {
+            for d in 1..=2u32 {
+                if ev.2 > d {
+                    limits.push(ev.2 - d);
+                }
+            }
+        }
+    }
     limits.retain(|m| *m >= 64);
     limits.sort();
     limits.dedup();
@@ -237,7 +248,77 @@ pub fn check_prove_limit(ctx: &Ctx) {
     });
 }
 
+/// small programs swept with every limit from 64 to a little beyond their cycle count: spans of
+/// one to three batches with host events placed around the batch boundaries (RESPAN rows), loops,
+/// calls. For each limit: Ok exactly when the program fits, the error carries the limit, and the
+/// host sees no callback later than the limit.
+pub fn check_every_limit(ctx: &Ctx) {
+    let mut srcs: Vec<String> = vec![];
+    for k in [62usize, 70, 71, 72, 73, 80, 143, 144, 145] {
+        srcs.push(format!("begin repeat.{k} add end emit.7 add emit.8 add end"));
+        srcs.push(format!("begin repeat.{k} add end trace.3 push.5 emit.9 drop end"));
+    }
+    srcs.push("begin repeat.30 push.1 emit.1 drop end end".into());
+    srcs.push("proc.f repeat.20 add end push.0 emit.5 drop end begin repeat.3 call.f end push.0 emit.6 drop end".into());
+    srcs.push("begin push.20 dup neq.0 while.true emit.2 sub.1 dup neq.0 end push.0 emit.3 drop end".into());
+    ctx.run_list("every-limit", &srcs, |src| {
+        let case = Case { src: src.clone(), ..Case::default() };
+        let program = match vm::assemble(&case, false) {
+            vm::Assembled::Ok(p) => p,
+            _ => return Err(Viol::new("C15:setup", "fixed program does not assemble", json!({"src": src}))),
+        };
+        let (res0, log0) = run_limited(&program, &case, u32::MAX).map_err(|e| Viol::new("C15:limit-run", e, json!({"src": src})))?;
+        let outs = res0.map_err(|e| Viol::new("C15:setup", format!("fixed program fails: {e}"), json!({"src": src})))?;
+        // the number of cycles: the smallest limit under which the program succeeds
+        let mut n = 0u32;
+        let mut evals = 0u64;
+        let upper = 64 + 4 * src.len() as u32 + 2000;
+        for m in 64..upper {
+            let cj = || json!({"case": case.to_json(), "limit": m});
+            let (res, log) = run_limited(&program, &case, m).map_err(|e| Viol::new("C15:limit-run", e, cj()))?;
+            evals += 1;
+            if let Some(ev) = log.events.iter().find(|e| e.2 > m) {
+                return Err(Viol::new("C15:ran-past-limit", format!("host callback at clk {} with limit {m}", ev.2), cj()));
+            }
+            match res {
+                Ok(o) => {
+                    if o != outs {
+                        return Err(Viol::new("C15:limit-changes-result", format!("outputs differ under limit {m}"), cj()));
+                    }
+                    if log.events.len() != log0.events.len() {
+                        return Err(Viol::new("C15:limit-changes-result", format!("host callbacks differ under limit {m}"), cj()));
+                    }
+                    if n == 0 {
+                        n = m;
+                    }
+                    if m > n + 3 {
+                        break;
+                    }
+                }
+                Err(ExecutionError::CycleLimitExceeded(x)) => {
+                    if n != 0 {
+                        return Err(Viol::new("C15:limit-not-monotone", format!("succeeds with limit {n} but not with {m}"), cj()));
+                    }
+                    if x != m {
+                        return Err(Viol::new("C15:limit-error-value", format!("error reports limit {x}, configured {m}"), cj()));
+                    }
+                    // callbacks seen so far are a prefix of the unlimited run's
+                    if log.events.iter().zip(log0.events.iter()).any(|(a, b)| a != b) {
+                        return Err(Viol::new("C15:limit-changes-result", format!("host callbacks before the limit {m} differ from the unlimited run"), cj()));
+                    }
+                }
+                Err(e) => return Err(Viol::new("C15:limit-other-error", format!("unexpected error under limit {m}: {e}"), cj())),
+            }
+        }
+        if n == 0 {
+            return Err(Viol::new("C15:setup", "no limit found under which the fixed program succeeds", json!({"src": src})));
+        }
+        Ok(Info { nontrivial: Some(fp_str(src)), classes: vec!["every-limit".into()], evals, sample: Some(json!({"src": src, "cycles": n})), ..Info::default() })
+    });
+}
+
 pub fn run(ctx: &Ctx) {
+    check_every_limit(ctx);
     ctx.set_rule("terminating programs from the full generator run with limits N-3..N+3, 64, N/2, 2N, N+1000, u32::MAX (N = cycles of the unlimited run): Ok iff N <= limit, same outputs, error carries the limit, no host callback beyond the limit; generated non-terminating loops (nested, growing stack/memory, events each iteration) must stop with the cycle-limit error (watchdog 60 s); the option constructor is enumerated around its validity boundaries; non-trivial = a limit within 3 of N or a non-terminating program; distinct by (N, program) resp. (program, limit)");
     check_options(ctx);
     check_prove_limit(ctx);
